@@ -92,10 +92,12 @@ def check_mesh_topology(ctx, ds, cv, out, info, kept, supply, start_index):
     keep_nodes = sorted({v for f in kept for v in faces[f]})
     nmap = {v: k for k, v in enumerate(keep_nodes)}
     fmap = {f: k for k, f in enumerate(kept)}
-    en_old = [frozenset(int(x) for x in e) for e in old_topo.edge_node_array]
-    pairs = {frozenset(p) for f in kept for p in zip(faces[f], faces[f][1:] + faces[f][:1])}
-    keep_edges = [e for e in range(len(en_old)) if en_old[e] in pairs]
-    emap = {e: k for k, e in enumerate(keep_edges)}
+    keep_edges, emap = [], {}
+    if ne is not None:
+        en_old = [frozenset(int(x) for x in e) for e in old_topo.edge_node_array]
+        pairs = {frozenset(p) for f in kept for p in zip(faces[f], faces[f][1:] + faces[f][:1])}
+        keep_edges = [e for e in range(len(en_old)) if en_old[e] in pairs]
+        emap = {e: k for k, e in enumerate(keep_edges)}
 
     def rows(arr):
         return [[int(v) for v in numpy.ma.compressed(r)] for r in arr]
@@ -136,7 +138,9 @@ def check_mesh_topology(ctx, ds, cv, out, info, kept, supply, start_index):
         ff_old = rows(old_topo.face_face_array)
         ctx.check([sorted(r) for r in rows(topo.face_face_array)] == [sorted(fmap[g] for g in ff_old[f] if g in fmap) for f in kept],
                   'face-face connectivity lists exactly the surviving neighbours')
-    if 'edge_node' in supply or not ({'face_edge', 'edge_face'} & set(supply)):
+    if ne is None:
+        pass          # no edges: nothing derived from them
+    elif 'edge_node' in supply or not ({'face_edge', 'edge_face'} & set(supply)):
         # derived tables of the output agree with its own face-node table
         en2 = [frozenset(e) for e in rows(topo.edge_node_array)]
         fe2 = rows(topo.face_edge_array)
